@@ -560,12 +560,13 @@ def block_variants(block, label):
             try:
                 out.append(('synth-merged' if merge else 'synth-unmerged',
                             pyrtl.synthesize(update_working_block=False, merge_io_vectors=merge, block=block)))
-            except (pyrtl.PyrtlError, pyrtl.PyrtlInternalError) as e:
-                out.append(('unavailable:synth-%s: %s' % ('merged' if merge else 'unmerged', str(e)[:50]), None))
+            except Exception as e:  # noqa  (a pass refusing / crashing on a block is C03/C04's subject)
+                out.append(('unavailable:synth-%s: %s: %s' % ('merged' if merge else 'unmerged',
+                                                              type(e).__name__, str(e)[:50]), None))
     try:
         out.append(('optimized', pyrtl.optimize(update_working_block=False, block=block)))
-    except (pyrtl.PyrtlError, pyrtl.PyrtlInternalError) as e:
-        out.append(('unavailable:optimize: ' + str(e)[:50], None))
+    except Exception as e:  # noqa
+        out.append(('unavailable:optimize: %s: %s' % (type(e).__name__, str(e)[:50]), None))
     return out
 
 
@@ -648,6 +649,18 @@ def run_python_sims(case):
 
 
 def run_plain(kind, case, bare):
+    import time
+    res = None
+    for k in range(3 if kind == 'compiled' else 1):
+        res = run_plain_once(kind, case, bare)
+        if not (isinstance(res, str) and res.split()[1].rstrip(':') in
+                ('CalledProcessError', 'OSError', 'MemoryError', 'BlockingIOError', 'FileNotFoundError')):
+            return res
+        time.sleep(1.5 * (k + 1))
+    return res
+
+
+def run_plain_once(kind, case, bare):
     """one more simulator instance of `kind`, built the way a user would: the block is the working block
     and every keyword whose value is the default is OMITTED (bare: no initial maps, no default_value, no
     tracer argument at all)"""
@@ -714,7 +727,23 @@ def repeat_instances(ctx, case, with_compiled):
                 replay_dict(ctx, case, {'instance': what, 'wire': nm}))
 
 
-def run_compiled(case):
+def run_compiled(case, attempts=3):
+    """a failing gcc / OS call can be a transient effect of a loaded machine (fork, memory, tmp space): the
+    build is retried; only a failure that persists over all attempts is reported (a C text gcc rejects is
+    deterministic and still surfaces)"""
+    import subprocess
+    import time
+    res = None
+    for k in range(attempts):
+        res = run_compiled_once(case)
+        if not (isinstance(res, str) and res.split()[1].rstrip(':') in
+                ('CalledProcessError', 'OSError', 'MemoryError', 'BlockingIOError', 'FileNotFoundError')):
+            return res
+        time.sleep(1.5 * (k + 1))
+    return res
+
+
+def run_compiled_once(case):
     block, regmap, memmap, inputs, dflt = (case['block'], case['regmap'], case['memmap'],
                                            case['inputs'], case['dflt'])
     try:
@@ -799,8 +828,8 @@ def observable_map(block, traced):
     for nm in traced:
         if nm not in bad_probe:
             obs[nm] = nm
-    for n in block.logic:
-        if n.op == 'w' and n.dests[0].name in traced and len(n.dests[0]) >= len(n.args[0]):
+    for n in sorted((x for x in block.logic if x.op == 'w'), key=lambda x: x.dests[0].name):
+        if n.dests[0].name in traced and len(n.dests[0]) >= len(n.args[0]):
             obs.setdefault(n.args[0].name, n.dests[0].name)
     return obs
 
@@ -1005,35 +1034,43 @@ def run(ctx):
     quick = ctx.tier == 'quick'
     n_sweep = 18 if quick else 72
     n_random = 36 if quick else 760
-    designs = []
+    hostile_pool()                                # built once, before any design exists (it resets the working block)
+
+    designs = []                                  # a design whose generation hits an error is measured, not fatal
+
+    def guarded(family, i, build):
+        try:
+            designs.append((family, i, build()))
+        except Exception as e:  # noqa
+            ctx.count('design_generation_error', '%s: %s: %s' % (family, type(e).__name__, str(e)[:60]))
     for i in range(n_sweep):
         rng = ctx.sub_rng('sweep', i)
-        designs.append(('sweep', i, sweep_design(rng, SWEEP_WIDTHS[i % 6], i // 6)))   # i//6 % 3 == 2: with truncating x/c/s
+        guarded('sweep', i, lambda: sweep_design(rng, SWEEP_WIDTHS[i % 6], i // 6))   # i//6 % 3 == 2: with truncating x/c/s
     n_modules = 6 if quick else 60
     for i in range(n_modules):                    # one sub-module instantiated several times
         rng = ctx.sub_rng('modules', i)
-        designs.append(('modules', i, modules_design(rng)))
+        guarded('modules', i, lambda: modules_design(rng))
     n_hostile = 12 if quick else 120
     for i in range(n_hostile):                    # hostile names on every kind of wire and on memories
         rng = ctx.sub_rng('hostile', i)
-        if i % 6 == 0:
-            d = sweep_design(rng, SWEEP_WIDTHS[(i // 6) % 6], i // 6)
-        else:
-            d = random_design(rng, i % 2 == 1)
-        designs.append(('hostile', i, apply_hostile_names(rng, d, rng.choice([0.35, 0.7, 1.0]))))
-        for kind, _, nm in d.renamed:
-            ctx.count('hostile_names', '%s: %s' % (kind if kind != 'WireVector' else 'Wire', name_class(nm)))
+        def hostile_build():
+            d = sweep_design(rng, SWEEP_WIDTHS[(i // 6) % 6], i // 6) if i % 6 == 0 else random_design(rng, i % 2 == 1)
+            d = apply_hostile_names(rng, d, rng.choice([0.35, 0.7, 1.0]))
+            for kind, _, nm in d.renamed:
+                ctx.count('hostile_names', '%s: %s' % (kind if kind != 'WireVector' else 'Wire', name_class(nm)))
+            return d
+        guarded('hostile', i, hostile_build)
     n_biglimb = 9 if quick else 72
     for i in range(n_biglimb):                    # 3..5-limb multiplications, additions, subtractions, comparisons
         rng = ctx.sub_rng('biglimb', i)
-        designs.append(('biglimb', i, biglimb_design(rng, i)))
+        guarded('biglimb', i, lambda: biglimb_design(rng, i))
     n_memhash = 8 if quick else 48
     for i in range(n_memhash):                    # hash-map collisions in the C memories
         rng = ctx.sub_rng('memhash', i)
-        designs.append(('memhash', i, memhash_design(rng, MEMHASH_AW[i % 4], rng.choice([65, 70, 128, 129]))))
+        guarded('memhash', i, lambda: memhash_design(rng, MEMHASH_AW[i % 4], rng.choice([65, 70, 128, 129])))
     for i in range(n_random):
         rng = ctx.sub_rng('random', i)
-        designs.append(('random', i, random_design(rng, i % 2 == 1)))
+        guarded('random', i, lambda: random_design(rng, i % 2 == 1))
 
     # phase 1: variants, stimulus, Python simulators (main thread: PyRTL's working block is global)
     cases = []
@@ -1249,7 +1286,12 @@ def run(ctx):
     mark('coq-climb')
     # phase 4: comparisons
     for case in cases:
-        compare_case(ctx, case)
+        try:
+            compare_case(ctx, case)
+        except Exception as e:  # noqa  one broken comparison must not hide the other cases
+            import traceback
+            ctx.model_mismatch('harness exception while comparing %s %s %s: %s' % (
+                case['family'], case['design'], case['variant'], traceback.format_exc()[-700:]), {})
     if climb_bad is not None:
         compare_climb(ctx, samples, climb_bad)
     roundtrip_check(ctx)
